@@ -208,6 +208,7 @@ impl Monitor for C13 {
         vec![
             "mints_ok",
             "minter_calls_tried_by_the_migration_admin",
+            "burns_through_an_allowance_above_the_balance_tried",
             "mints_of_exactly_the_room_ok",
             "mints_one_over_the_room_rejected",
             "non_minter_mint_rejected",
@@ -279,6 +280,31 @@ impl Monitor for C13 {
             format!("Minter query {:?}, instantiate said {:?}", pre.minter, want)
         }) {
             return;
+        }
+        if h.idx % 8 == 3 {
+            // burning through an allowance larger than what the owner holds, then minting into whatever room the
+            // contract believes it has: what is destroyed and what is booked as destroyed must be the same
+            let owner = pre.bal.iter().find(|(_, b)| **b > 0 && **b < u128::MAX / 8).map(|(a, b)| (a.clone(), *b));
+            if let (Some((owner, bal)), Some(minter)) = (owner, m.minter.clone()) {
+                let spender = crate::cw20w::pool().actors.iter().find(|a| **a != owner).cloned().unwrap_or_default();
+                let script: Vec<(String, Op)> = vec![
+                    (owner.clone(), Op::Inc { spender: spender.clone(), amt: bal * 4 + 7, exp: None }),
+                    (spender.clone(), Op::BurnFrom { owner: owner.clone(), amt: bal + 1 + bal / 2 }),
+                    (spender.clone(), Op::BurnFrom { owner: owner.clone(), amt: bal }),
+                ];
+                for (sender, op) in script {
+                    if !self.step(h, &mut c, &mut m, &mut pre, &sender, &op) {
+                        return;
+                    }
+                }
+                if let Some(cap) = m.cap {
+                    let room = cap.saturating_sub(pre.supply);
+                    if room > 0 && !self.step(h, &mut c, &mut m, &mut pre, &minter, &Op::Mint { to: spender, amt: room }) {
+                        return;
+                    }
+                }
+                h.out.count("burns_through_an_allowance_above_the_balance_tried");
+            }
         }
         let n = h.tier.pick(60, 100);
         let migrate_at = if h.idx % 4 == 3 { h.rng.range(0, 40) as usize } else { usize::MAX };
